@@ -317,19 +317,30 @@ func specParsed(p *FrameParser) bool {
 // ---- handle construction (C10). The two platform constructors sit directly on syscalls and are trusted to return
 // either an open handle or an error; NewSourceSink is verified against them.
 
-//@ assume func NewSinkLinux
-//@ trusted raw-socket constructor on top of unix.Socket/Setsockopt (syscalls are outside the verifier's reach)
-//@ ensures[ts.sink.new]  (ret1 == nil) == (ret0 != nil) && (ret1 == nil ==> fresh(ref(ret0)) && live(ref(ret0)) && selb(isOpen, ref(ret0)) && sel(closeN, ref(ret0)) == 0)
-//@ ensures[ts.sink.frame] forallint(h, (ret1 != nil || h != ref(ret0)) ==> selb(isOpen, h) == old(selb(isOpen, h)) && sel(closeN, h) == old(sel(closeN, h)))
-//@ ensures[sink.exterr]  ret1 != nil ==> noRepoErr(ret1)
-//@ modifies ghost isOpen, ghost closeN
+// The two socket constructors. Their bodies are verified at the descriptor level (ghost osOpen: raw descriptors and
+// *os.File objects): on every failure path nothing is left open and nothing else is closed, a descriptor is closed at
+// most once, and success hands exactly the new descriptor over to the returned object's file. What stays ASSUMED is the
+// abstraction step: the interface-level typestate (isOpen / closeN of the returned Sink / Source object, which the
+// entry points reason with) mirrors the state of that file.
+//@ func NewSinkLinux
+//@ safety C10
+//@ assumed[ts.sink.new]  (ret1 == nil) == (ret0 != nil) && (ret1 == nil ==> fresh(ref(ret0)) && live(ref(ret0)) && selb(isOpen, ref(ret0)) && sel(closeN, ref(ret0)) == 0)
+//@ assumed[ts.sink.frame] forallint(h, (ret1 != nil || h != ref(ret0)) ==> selb(isOpen, h) == old(selb(isOpen, h)) && sel(closeN, h) == old(sel(closeN, h)))
+//@ ensures[C10.sink.atom]    (ret1 == nil) == (ret0 != nil)
+//@ ensures[sink.exterr]      ret1 != nil ==> noRepoErr(ret1)
+//@ ensures[C10.sink.os.fail] ret1 != nil ==> forallint(k, selb(osOpen, k) == old(selb(osOpen, k)))
+//@ ensures[C10.sink.os.ok]   ret1 == nil ==> forallint(k, k <= 0 ==> selb(osOpen, k) == old(selb(osOpen, k)))
+//@ modifies ghost isOpen, ghost closeN, ghost osOpen
 
-//@ assume func NewAFPacketSource
-//@ trusted AF_PACKET constructor on top of unix.Socket (syscalls are outside the verifier's reach)
-//@ ensures[ts.src.new]   (ret1 == nil) == (ret0 != nil) && (ret1 == nil ==> fresh(ref(ret0)) && live(ref(ret0)) && selb(isOpen, ref(ret0)) && sel(closeN, ref(ret0)) == 0)
-//@ ensures[ts.src.frame] forallint(h, (ret1 != nil || h != ref(ret0)) ==> selb(isOpen, h) == old(selb(isOpen, h)) && sel(closeN, h) == old(sel(closeN, h)))
-//@ ensures[src.exterr]   ret1 != nil ==> noRepoErr(ret1)
-//@ modifies ghost isOpen, ghost closeN
+//@ func NewAFPacketSource
+//@ safety C10
+//@ assumed[ts.src.new]   (ret1 == nil) == (ret0 != nil) && (ret1 == nil ==> fresh(ref(ret0)) && live(ref(ret0)) && selb(isOpen, ref(ret0)) && sel(closeN, ref(ret0)) == 0)
+//@ assumed[ts.src.frame] forallint(h, (ret1 != nil || h != ref(ret0)) ==> selb(isOpen, h) == old(selb(isOpen, h)) && sel(closeN, h) == old(sel(closeN, h)))
+//@ ensures[C10.src.atom]     (ret1 == nil) == (ret0 != nil)
+//@ ensures[src.exterr]       ret1 != nil ==> noRepoErr(ret1)
+//@ ensures[C10.src.os.fail]  ret1 != nil ==> forallint(k, selb(osOpen, k) == old(selb(osOpen, k)))
+//@ ensures[C10.src.os.ok]    ret1 == nil ==> forallint(k, k <= 0 ==> selb(osOpen, k) == old(selb(osOpen, k)))
+//@ modifies ghost isOpen, ghost closeN, ghost osOpen
 
 //@ func NewSourceSink
 //@ safety C10
